@@ -480,6 +480,7 @@ class Exec:
         if s.startswith('move '): return self.read(st, fr, parse_place(s[5:]))
         if s.startswith('no_retag '): return self.operand(st, fr, s[9:])
         if s.startswith('const '): return self.const(st, fr, s[6:])
+        if re.match(r'[a-z_][\w:]*$', s) and any(f.method == s.split('::')[-1] and not f.impl for f in self.fns): return ('fnitem', s.split('::')[-1])
         raise Unsupported('operand: ' + s)
 
     def rvalue(self, st, fr, s, dest_ty=None):
